@@ -255,7 +255,7 @@ func (e *Executor) RunTask(ctx context.Context, call *Call) error {
 }
 
 func (e *Executor) mkdir(t *ast.Task) error {
-	if t.Dir == "" {
+	if t.Dir == "" || e.Dry {
 		return nil
 	}
 
